@@ -439,6 +439,40 @@ bool ref_zuc256_eia3(const uint8_t key[32], const uint8_t *iv, size_t iv_len, co
         return true;
 }
 
+
+// ---------------------------------------------------------------------------
+// LFSR cell streams (used by the residue scan, not by the output oracles): x[0..15] are the cells after initialisation,
+// x[16 + n] is the cell shifted in by work-mode clock n, so the register at any later time t is x[t .. t+15].
+// ---------------------------------------------------------------------------
+bool ref_zuc_lfsr_stream(const uint8_t *key, size_t key_len, const uint8_t *iv, size_t iv_len, size_t tag_len,
+                         size_t clocks, std::vector<uint32_t> &x, std::vector<uint32_t> *ks)
+{
+        x.clear();
+        if (ks)
+                ks->clear();
+        Zuc z;
+        if (key_len == 16) {
+                if (iv_len != 16)
+                        return false;
+                z.init128(key, iv);
+        } else if (key_len == 32) {
+                uint8_t iv25[25];
+                if (!zuc256_unpack_iv(iv, iv_len, iv25))
+                        return false;
+                z.init256(key, iv25, tag_len);
+        } else
+                return false;
+        for (int i = 0; i < 16; i++)
+                x.push_back(z.s[i]);
+        for (size_t n = 0; n < clocks; n++) {
+                const uint32_t w = z.next_word();
+                if (ks)
+                        ks->push_back(w);
+                x.push_back(z.s[15]);
+        }
+        return true;
+}
+
 // ===========================================================================
 // SNOW 3G (ETSI/SAGE "UEA2 & UIA2 Document 2: SNOW 3G Specification") and
 // UEA2 / UIA2 (Document 1 = TS 35.215)
@@ -571,6 +605,25 @@ bool ref_snow3g_f8_keystream(const uint8_t key[16], const uint8_t iv[16], uint8_
                 put_be32(w, g.next_word());
                 for (int j = 0; j < 4 && i < len; j++, i++)
                         ks[i] = w[j];
+        }
+        return true;
+}
+
+bool ref_snow3g_lfsr_stream(const uint8_t key[16], const uint8_t iv[16], size_t clocks, std::vector<uint32_t> &x,
+                            std::vector<uint32_t> *ks)
+{
+        x.clear();
+        if (ks)
+                ks->clear();
+        Snow3g g;
+        g.init_from_bytes(key, iv);
+        for (int i = 0; i < 16; i++)
+                x.push_back(g.s[i]);
+        for (size_t n = 0; n < clocks; n++) {
+                const uint32_t w = g.next_word();
+                if (ks)
+                        ks->push_back(w);
+                x.push_back(g.s[15]);
         }
         return true;
 }
